@@ -470,6 +470,12 @@ def rule_T(ctx):
             def getX(self):
                 return self.vals()[0]
 
+            def getY(self):
+                return self.vals()[1]
+
+            def getZ(self):
+                return self.vals()[2]
+
             def __repr__(self):
                 return '%s<%s>' % (kind, self.tag if self.tag is not None else ('from ' + repr(self.src) if self.src is not None else self.vals()))
         C.__name__ = kind
